@@ -459,6 +459,30 @@ silent('c05-not-segments', 'C05',
        [(C, "        if len(path_segments) == 0:\n            return match == str(test_value)",
          "        if not path_segments:\n            return str(test_value) == match")])
 
+# match statements over literals are the if / elif chain they abbreviate
+silent('c01-match-constants', ['C01', 'C02', 'C05'],
+       [(P, """    if rule == '!':
+        return _checks.FalseCheck()
+    elif rule == '@':
+        return _checks.TrueCheck()
+""", """    match rule:
+        case '!':
+            return _checks.FalseCheck()
+        case '@':
+            return _checks.TrueCheck()
+""")])
+fire('c01-match-constants-swapped', 'C01',
+     [(P, """    if rule == '!':
+        return _checks.FalseCheck()
+    elif rule == '@':
+        return _checks.TrueCheck()
+""", """    match rule:
+        case '@':
+            return _checks.FalseCheck()
+        case '!':
+            return _checks.TrueCheck()
+""")], 'C01.CONST')
+
 # ------------------------------------------------------------------ C06
 fire('c06-alias-current-rule', 'C06',
      [(C, "                enforcer=enforcer,\n                current_rule=current_rule,\n            )\n        except KeyError:",
